@@ -110,7 +110,67 @@ func idsOf(t *core.Table) []int {
 	return ids
 }
 
+// c07WordsAmongBooleans: a text column in which some words happen to read as booleans (true, false, t, f). Whatever place those
+// take, the other words are texts with a defined order: their subsequence in the output is sorted, and the output is a
+// permutation of the rows.
+func c07WordsAmongBooleans(w *core.Worker, i int) {
+	r := w.Rng(i, "boolwords")
+	words := []string{"c", "true", "b", "false", "a", "t", "zeta", "f", "Alpha", "beta", "TRUE", "gamma", "False", "delta", "u", "e", "ta", "fa"}
+	n := r.Range(4, 40)
+	var sb strings.Builder
+	sb.WriteString("id,w\n")
+	ws := map[int]string{}
+	for k := 1; k <= n; k++ {
+		ws[k] = words[r.Intn(len(words))]
+		fmt.Fprintf(&sb, "%d,%s\n", k, ws[k])
+	}
+	core.WriteFiles(w.Work, map[string]string{"bw.csv": sb.String()})
+	s, err := core.NewSess(core.SessOpts{Dir: w.Work, Quiet: true})
+	if err != nil {
+		w.Inconclusive(err.Error())
+		return
+	}
+	defer s.Close()
+	isBool := func(x string) bool {
+		switch strings.ToLower(x) {
+		case "true", "false", "t", "f":
+			return true
+		}
+		return false
+	}
+	for _, q := range []string{"SELECT id, w FROM bw ORDER BY w", "SELECT id, w FROM bw ORDER BY w DESC", "SELECT id, w FROM bw ORDER BY w, id LIMIT 100"} {
+		res := s.Exec(q + ";")
+		if res.Err != nil || len(res.Views) != 1 {
+			continue
+		}
+		seen := map[string]bool{}
+		prev := ""
+		bad := ""
+		for _, row := range res.Views[0].Rows {
+			seen[row[0].S] = true
+			x := row[1].S
+			if isBool(x) {
+				continue
+			}
+			u := strings.ToUpper(x)
+			if prev != "" && ((!strings.Contains(q, "DESC") && u < prev) || (strings.Contains(q, "DESC") && u > prev)) {
+				bad = fmt.Sprintf("%q comes after %q", x, strings.ToLower(prev))
+			}
+			prev = u
+		}
+		if len(seen) != n || len(res.Views[0].Rows) != n {
+			w.Violation("permutation:words-among-booleans", fmt.Sprintf("%s over %d rows returned %d rows with %d different ids", q, n, len(res.Views[0].Rows), len(seen)), c07Replay{Table: sb.String(), Query: q})
+		} else if bad != "" {
+			w.Violation("inversion:words-among-booleans", fmt.Sprintf("%s: %s (words that do not read as booleans are texts and have an order)", q, bad), c07Replay{Table: sb.String(), Query: q})
+		}
+		w.Count("orderings_of_words_among_boolean_words", 1)
+	}
+}
+
 func c07Case(w *core.Worker, i int) {
+	if i%8 == 3 {
+		c07WordsAmongBooleans(w, i)
+	}
 	r := w.Rng(i, "")
 	big := i%8 == 7
 	n := pickSize(r, big)
